@@ -50,7 +50,7 @@ func itoa15(n int) string {
 // every Go map that emerge's own code ranges over left to the path (each permutation is explored): the
 // diagnostics, their order, the specification and the final-state lists must be the same.
 func harnessC15Order() {
-	variant := verif.Pick("variant", 7)
+	variant := verif.Pick("variant", 8)
 	k := verif.Len("k", 0, specOrdK2)
 	if variant < 5 {
 		verif.Assume(k <= specOrdK)
@@ -76,11 +76,11 @@ func harnessC15Order() {
 		}
 	}
 	verif.Reach("compared")
-	verif.Assert(rej1 == rej2, "acceptance depends on the iteration order of a hash map")
+	verif.Assert(rej1 == rej2, "acceptance depends on an order the text does not determine")
 	if rej1 {
 		verif.Reach("rejected")
 	} else {
 		verif.Reach("accepted")
 	}
-	verif.Assert(first == second, "the outcome depends on the iteration order of a hash map: "+first+" <> "+second)
+	verif.Assert(first == second, "the outcome depends on an order the text does not determine (hash map iteration, container traversal, sort input or goroutine completion): "+first+" <> "+second)
 }
